@@ -173,3 +173,6 @@ def run(ctx: Ctx, rep: Report, tier: str):
     rep.rule("C14.W12", "how the provider's answer becomes state: the refresh asks info_oid for the entry's id on that side with the cache bypassed, touches that side only, "
              "and writes type, path, size, mtime (every path) and hash (whenever it differs) of the answer to the state", 8)
     refresh_writes_through(ctx, rep, "C14.W12")
+    from rules.common import pathless_event_takes_known_path
+    rep.rule("C14.W13", "an event that carries no path is completed from the state: _fill_event_path copies the path the state knows for the event's id under no further condition", 1)
+    pathless_event_takes_known_path(ctx, rep, "C14.W13")
